@@ -132,6 +132,8 @@ pub fn op_handover(w: &mut World, ki: usize, advance: u64, msgs: u8) {
             w.violate("C13", "handover-successor", "handover", format!("hash-sigs wrote {} after counter {}", short_hex(&newprv), counter));
         }
         w.keys[ki].releases.push(Release { counter, msg, sig, by_hashsigs: true });
+        let hi = w.keys[ki].ledger_high.map_or(counter, |h| h.max(counter));
+        w.keys[ki].ledger_high = Some(hi);
         w.rep.stats.probe("hash-sigs-signed-from-shared-key-file");
         prv = newprv;
         counter += 1;
